@@ -55,6 +55,15 @@ theorem facts_relay_channels :
     relayChannels = ["readerDone=0", "writerErr=1", "frameReady=1"] ∧ deferredSend = "readerDone" := by
   decide
 
+/-- Every `ReadFrame` of `relayFrames` is issued by a goroutine of its own (one call site, inside a
+    `go func`), never inline in the reader's loop, and the reader waits for it in a `select` whose other
+    arms are `writerErr` and the channel it was given (`done`) — without a `default`: a reader is in
+    `selReading` between ANY two frames, also between the frames of one split header block
+    (`Props/C10/MidBlock.lean`). -/
+theorem facts_readframe_only_in_goroutine :
+    readFrameSites = ["go"] ∧ readerSelectArms = ["<-frameReady", "<-writerErr", "<-PARAM"] := by
+  decide
+
 /-- Lock balance of relay.go: in every function (and function literal) that takes a mutex, every
     path from a `Lock` reaches an `Unlock` (or a deferred one) before any `return` and before the end
     of the function, branches agree and loop bodies are balanced. -/
